@@ -337,6 +337,21 @@ class Driver:
                 rel, after = a.get("release_value"), a.get("after")
                 if after is not None:
                     sim.call_ext(after, (lambda: sig.put(rel)), "release")
+            elif do == "rsuspend":
+                # the public RE.request_suspend(fut) used directly (no Suspender object): one asyncio.Event and one
+                # callable (its bound `wait`) are re-used for every suspension of the case, as user code that keeps
+                # `resume_when = ev.wait` around does
+                import asyncio
+
+                a = inj.get("args") or {}
+                if getattr(self, "_rs_event", None) is None:
+                    self._rs_event = asyncio.Event()
+                    self._rs_wait = self._rs_event.wait
+                ev = self._rs_event
+                ev.clear()
+                sim.record("rsuspend", just=a.get("just"), state=str(RE.state))
+                RE.request_suspend(self._rs_wait, justification=a.get("just", "direct request"))
+                sim.call_ext(a.get("after", 0.5), (lambda: RE.loop.call_soon_threadsafe(ev.set)), "rsuspend-release")
             elif do == "stall":
                 sim.now += inj["args"]["dt"]
                 sim.count_fault("loop_stall")
@@ -517,6 +532,13 @@ class Driver:
                 self._settle(step.get("how"))
             elif do == "set_md":
                 self.RE.md[step["key"]] = step["value"]
+            elif do == "unsubscribe_all":
+                # what RE.reset() does to the subscriptions: every token is dead afterwards (the simulator's own
+                # recorder is then subscribed again, like a user's logging callback would be after a reset)
+                self.sim.record("user", do="unsubscribe_all")
+                RE.dispatcher.unsubscribe_all()
+                self.tokens.clear()
+                self._recorder_token = RE.subscribe(self._recorder)
             elif do == "store_put":
                 # the owner of the mapping that was handed to RunEngine(md) writes to it directly
                 self.sim.record("user", do="store_put", key=step["key"], value=step["value"])
